@@ -1,6 +1,6 @@
 """C06 — the constraint system does not depend on the values processed."""
 import copy
-import tracecheck
+import tracecheck, matrixcases
 
 PID = "C06"
 PROFILE = {"p_ignore": 0.0, "p_valid_inputs": 0.85, "guard_inputs": [0, 3], "max_guard_depth": 3,
@@ -9,6 +9,7 @@ PROFILE = {"p_ignore": 0.0, "p_valid_inputs": 0.85, "guard_inputs": [0, 3], "max
 
 def variants(case, rnd):
     """same program: another valid-ish input vector (other guard value), and an arbitrary one with error checking off"""
+    if case.get("matrix", "").startswith("op:"): return matrixcases.sign_variants(case)
     n, p = case["cfg"]["n"], case["cfg"]["p"]
     v1 = copy.deepcopy(case)
     v1["ins"] = [1 - case["ins"][0] if case["ins"][0] in (0, 1) else 1] + [rnd.randrange(0, 2 ** max(1, n - 1)) for _ in case["ins"][1:]]
@@ -47,7 +48,12 @@ def post(cov, cases, recs):
 
 
 def run(tier, seed):
-    return tracecheck.run(PID, tier, seed, PROFILE, oracle, n_quick=540, n_thorough=9000, variants=variants, post=post, mask=1 | 2 | 4,
+    # deterministic part: every binary operator x operand kinds (secret int, fixed point, boolean, constants), each on operands
+    # of all sign combinations / zero / beyond the bitlength with error checking off: one shape per program
+    pending = matrixcases.operator_kinds(kinds=["lc", "fxp", "bool", "int"] if tier == "quick" else None)
+    nm = sum(1 + len(matrixcases.sign_variants(c)) for c in pending)
+    return tracecheck.run(PID, tier, seed, PROFILE, oracle, n_quick=nm + 540, n_thorough=nm + 9000, variants=variants, post=post, mask=1 | 2 | 4,
+                          casegen=matrixcases.with_pending(pending, PROFILE),
                           extra_assumptions=["shape = (kinds in allocation order, constraints in order with unordered multiplicands and coefficients mod p, result wires)"])
 
 
